@@ -51,7 +51,8 @@ def generate(seed, tier):
     rng = random.Random(seed)
     ops = [common.gen_gv_op(rng)] if rng.random() < 0.85 else []
     w = {"edfa": 8, "gv": 2, "bad": 1, "reseed": rng.choice([0, 1, 2]), "freeze": rng.choice([0, 1]),
-         "clean": rng.choice([0, 1]), "leak": rng.choice([0, 0, 1])}
+         "clean": rng.choice([0, 1]), "leak": rng.choice([0, 0, 1]),
+         "interleave": rng.choice([0, 1])}
     kinds = [k for k, c in w.items() for _ in range(c)]
     last_gn = None
     for _ in range(rng.randint(4, 9)):
@@ -88,6 +89,8 @@ def generate(seed, tier):
             ops.append({"op": "clean"})      # back to the default grid and carrier (often followed by a new gv())
         elif k == "leak":
             ops.append({"op": "leak", "upto": rng.choice([40, 70, 140]), "every": rng.choice([1, 1, 3])})
+        elif k == "interleave":
+            ops.append({"op": "interleave", "what": rng.choice(["eye", "eye", "prbs", "dac"])})
         elif k == "reseed":
             ops.append({"op": "reseed", "s": rng.getrandbits(31)})
         elif k == "freeze":
@@ -151,6 +154,39 @@ class Bench:
         self.rec.fault("gv_clean")
         return f"{self.gv.fs:.3e}/{self.gv.f0:.4e}"
 
+    def op_interleave(self, op):
+        """Other library blocks are used between two calls of the device (a link loop: amplify/detect, estimate the
+        eye, generate the next pattern ...): every call must still draw fresh noise."""
+        from opticomlib.devices import GET_EYE, PRBS, DAC
+        x = self.O(np.exp(1j * np.arange(64)) * 0.01)
+        sps = int(self.gv.sps)
+
+        def foreign():
+            with seams.stdout_tap():
+                if op["what"] == "eye":
+                    b = np.tile([0, 1, 1, 0, 1, 0, 0, 1], 8)
+                    w = np.kron(b, np.ones(sps)) + 0.01 * np.cos(np.arange(64 * sps))
+                    try:
+                        GET_EYE(w, sps_resamp=32)
+                    except Exception:
+                        pass        # the estimator itself is C17's subject; only its side effects matter here
+                elif op["what"] == "prbs":
+                    PRBS(7, 40)
+                else:
+                    DAC(PRBS(7, 16), 0.0, 1.0, "nrz")
+        outs = []
+        for k in range(3):
+            outs.append(np.array(self._nz(self.EDFA(x, 13.0, 5.0), 64)))
+            foreign()
+        if not np.any(outs[0]):
+            return "no-noise"
+        for i, j in ((0, 1), (1, 2), (0, 2)):
+            if np.array_equal(outs[i], outs[j]):
+                raise Violation("C10/ase-cov", f"EDFA calls {i} and {j} of a loop that also uses {op['what']} carry the identical "
+                                            f"noise realisation: the noise is not drawn afresh", "fresh/" + op["what"])
+        self.rec.fault("foreign_calls_interleaved")
+        return "fresh"
+
     def op_leak(self, op):
         """Rejected calls pile up on the library's timer stack; the amplifier must keep working and keep giving
         the same result (all draws served as zeros) at every depth."""
@@ -177,7 +213,8 @@ class Bench:
         self.frozen = bool(op["on"])
         return str(self.frozen)
 
-    def _mk(self, sig, noise):
+    def _mk(self, sig, noise, layout=None):
+        sig, noise = common.relayout(sig, layout), common.relayout(noise, layout)
         x = self.O(sig, noise) if noise is not None else self.O(sig)
         if self.frozen:
             seams.set_writeable([x.signal, x.noise], False)
@@ -210,7 +247,7 @@ class Bench:
         sg = np.sqrt(g)
         nf = 10 ** (NF / 10)
         P_ase = nf * h_planck * f0 * (g - 1) * fs
-        x = self._mk(sig, noise)
+        x = self._mk(sig, noise, op.get("layout"))
         dig0 = (seams.buf_digest(x.signal), seams.buf_digest(x.noise))
         what = f"EDFA/pol{npol}/{op['innoise'] or 'clean'}/{op['sdtype']}/G{G:.3g}"
 
@@ -303,7 +340,9 @@ class Bench:
                     M[:, k] = [m[0].real, m[0].imag, m[1].real, m[1].imag]
                 C = M @ M.T
                 target = (P_ase / 4) * np.eye(4)
-                tol = 1e-9 * max(P_ase / 4, np.max(np.abs(C))) + 1e-26 * nscale ** 2
+                # last term: the scales are differences of outputs that carry the amplified input noise, so they are
+                # known to ~eps*nscale; that limits C when the ASE is many decades below the input noise
+                tol = 1e-9 * max(P_ase / 4, np.max(np.abs(C))) + 1e-26 * nscale ** 2 + 1e-14 * nscale * np.sqrt(P_ase)
                 if np.max(np.abs(C - target)) > tol:
                     lab = ["Re x", "Im x", "Re y", "Im y"]
                     i, j = np.unravel_index(int(np.argmax(np.abs(C - target))), (4, 4))
@@ -383,6 +422,19 @@ class Bench:
                         raise Violation("C10/bw", f"{what}: with BW={bw:.3e} the {name} component is not the "
                                                   f"band-limited version of the unfiltered output", f"bw/{name}")
             self.rec.probe("BW twin")
+            # independent of the library's own BPF: beyond the cut-off BW/2 the same ASE realisation must come out
+            # attenuated (zero-phase low-pass equivalent: -6 dB at the cut-off, more above it; 2x margin)
+            if n >= 256 and P_ase > 0 and y_bw.noise is not None and y_nb.noise is not None:
+                f_ = np.abs(np.fft.fftfreq(n, 1 / fs))
+                band = f_ > 0.55 * bw
+                if int(band.sum()) >= 16:
+                    pu = float(np.sum(np.abs(np.fft.fft(self._nz(y_nb, n), axis=1)[:, band]) ** 2))
+                    pf = float(np.sum(np.abs(np.fft.fft(self._nz(y_bw, n), axis=1)[:, band]) ** 2))
+                    if pu > 0 and pf > 0.5 * pu:
+                        raise Violation("C10/bw", f"{what}: with BW={bw:.3e} (fs={fs:.3e}) the noise beyond the cut-off "
+                                                  f"BW/2 keeps {pf / pu:.2f} of its unfiltered power: the output is "
+                                                  f"not band-limited", "bw/stopband")
+                    self.rec.probe("stop-band attenuation checked independently of BPF")
 
         if (seams.buf_digest(x.signal), seams.buf_digest(x.noise)) != dig0:
             raise Violation("C10/type", f"{what}: EDFA modified its input", "mutate")
